@@ -37,8 +37,8 @@ Proof.
       destruct (e_not_spec KBcdd terms nl tid _ _ _ H1) as [M1 F1].
       destruct (e_not KBcdd terms tid s1 e) as [s2|] eqn:H2; [|exact I].
       destruct (e_not_spec KBcdd terms nl tid _ _ _ H2) as [M2 F2].
-      pose proof (e_goi_spec KBcdd terms nl tid cap s2 lvl (enot t) (enot e)) as G.
-      destruct (e_goi KBcdd terms nl tid cap s2 lvl (enot t) (enot e)) as [s3 h|s3|]; [| |exact I].
+      pose proof (e_goi_spec KBcdd terms nl tid cap s2 lvl (eflip t) (eflip e)) as G.
+      destruct (e_goi KBcdd terms nl tid cap s2 lvl (eflip t) (eflip e)) as [s3 h|s3|]; [| |exact I].
       * destruct G as [M3 F3].
         destruct (e_not KBcdd terms tid s3 h) as [s4|] eqn:H4; [|exact I].
         destruct (e_not_spec KBcdd terms nl tid _ _ _ H4) as [M4 F4].
